@@ -473,6 +473,20 @@ func runFanoutHistory(cfgTok, evTok string) string {
 		cfg.RecordConfig.EnableFlv = true
 		cfg.RecordConfig.FlvOutPath = recDir
 	}
+	var trecDir string
+	if kv["trec"] != 0 {
+		// MPEG-TS recording.  EnableMpegts also starts the real Rtmp2MpegtsRemuxer for the input; the histories that
+		// set trec publish fewer than 16 messages per input and never both audio and video, so its probe queue never
+		// drains and the only PAT/PMT / TS data the group sees are the blobs this harness injects (events A / T)
+		d, err := ioutil.TempDir("", "lalprobe-trec-")
+		if err != nil {
+			panic(err)
+		}
+		trecDir = d
+		defer os.RemoveAll(trecDir)
+		cfg.RecordConfig.EnableMpegts = true
+		cfg.RecordConfig.MpegtsOutPath = trecDir
+	}
 	var target *pushTarget
 	var targetSrv *rtmp.Server
 	if kv["push"] != 0 {
@@ -533,7 +547,28 @@ func runFanoutHistory(cfgTok, evTok string) string {
 		return false
 	}
 
-	var recs []string
+	var recs, trecs []string
+	var recFiles, trecFiles []string
+	// one recording per input epoch: when the input ends the file is moved aside (a second epoch within the
+	// same second would reuse - and truncate - the file name) and read back at the END of the history, so that
+	// anything written to a recording that was not closed is seen
+	collectRecs := func() {
+		move := func(dir, pat string, list *[]string) {
+			if dir == "" {
+				return
+			}
+			files, _ := filepath.Glob(filepath.Join(dir, pat))
+			sort.Strings(files)
+			for _, fn := range files {
+				to := fmt.Sprintf("%s.%d.done", fn, len(*list))
+				if os.Rename(fn, to) == nil {
+					*list = append(*list, to)
+				}
+			}
+		}
+		move(recDir, "*.flv", &recFiles)
+		move(trecDir, "*.ts", &trecFiles)
+	}
 	stopInput := func() {
 		if pubSession == nil {
 			return
@@ -544,17 +579,7 @@ func runFanoutHistory(cfgTok, evTok string) string {
 		group.DelRtmpPubSession(pubSession)
 		pubConn.Close()
 		pubSession = nil
-		if recDir != "" {
-			// one recording per input epoch: read it back and remove it (a second
-			// epoch within the same second would reuse the file name)
-			files, _ := filepath.Glob(filepath.Join(recDir, "*.flv"))
-			sort.Strings(files)
-			for _, fn := range files {
-				b, _ := ioutil.ReadFile(fn)
-				recs = append(recs, string(b))
-				os.Remove(fn)
-			}
-		}
+		collectRecs()
 		if target != nil && pushAttached {
 			select {
 			case <-target.doneCh:
@@ -606,15 +631,7 @@ func runFanoutHistory(cfgTok, evTok string) string {
 				group.DelRtmpPubSession(pubSession)
 				pubConn.Close()
 				pubSession = nil
-				if recDir != "" {
-					files, _ := filepath.Glob(filepath.Join(recDir, "*.flv"))
-					sort.Strings(files)
-					for _, fn := range files {
-						b, _ := ioutil.ReadFile(fn)
-						recs = append(recs, string(b))
-						os.Remove(fn)
-					}
-				}
+				collectRecs()
 				pushAttached = false
 			}
 		case "K":
@@ -756,6 +773,14 @@ func runFanoutHistory(cfgTok, evTok string) string {
 	}
 	// end of history: stop the input so that push targets and recordings are finalised
 	stopInput()
+	for _, fn := range recFiles {
+		b, _ := ioutil.ReadFile(fn)
+		recs = append(recs, string(b))
+	}
+	for _, fn := range trecFiles {
+		b, _ := ioutil.ReadFile(fn)
+		trecs = append(trecs, string(b))
+	}
 
 	// every relay-push session the target saw must have been closed by the end of the history
 	pushOpen := -1
@@ -907,6 +932,16 @@ func runFanoutHistory(cfgTok, evTok string) string {
 			rl = []string{"-"}
 		}
 		parts = append(parts, "rec="+strings.Join(rl, "/"))
+	}
+	if trecDir != "" {
+		var rl []string
+		for _, r := range trecs {
+			rl = append(rl, labelStream([]byte(r), tsUnits))
+		}
+		if len(rl) == 0 {
+			rl = []string{"-"}
+		}
+		parts = append(parts, "trec="+strings.Join(rl, "/"))
 	}
 	if target != nil {
 		parts = append(parts, fmt.Sprintf("popen=%d", waitPushClosed()))
